@@ -232,6 +232,19 @@ def edits(rng, s, n):
     return out
 
 
+def all_edits(s):
+    out = []
+    for i in range(len(s) + 1):
+        for ch in ALPHA:
+            out.append(s[:i] + ch + s[i:])
+    for i in range(len(s)):
+        out.append(s[:i] + s[i + 1:])
+        for ch in ALPHA:
+            if ch != s[i]:
+                out.append(s[:i] + ch + s[i + 1:])
+    return out
+
+
 def glob_cases(s):
     return [Case('valid_glob ' + hexs(s), 'glob/valid', ('vglob', s)),
             Case('glob_conv ' + hexs(s), 'glob/conv', ('gconv', s))]
@@ -414,6 +427,11 @@ def generate(rng, tier):
             add_glob(e)
     for _ in range(6000 * mult):
         add_glob(near_miss_glob(rng))
+    # every edit-distance-1 neighbour (insert / delete / replace at every position) of a few representatives
+    reps = ['1.2.3.4', '10.0.0-9.*', '*.*.*.*', '255.254-255.*.*', '0.0.0.0-1'] + [valid_glob_str(rng) for _ in range(2 * mult)]
+    for s in reps:
+        for e in all_edits(s):
+            add_glob(e)
     # octets from the literals of the current source
     lits = [v for v in harvest_literals() if v <= 300]
     for _ in range(300 * mult):
@@ -444,6 +462,10 @@ def generate(rng, tier):
         add_nmap(s)
     for s in rng.sample(nbase, 500 * mult):
         for e in edits(rng, s, 2):
+            add_nmap(e)
+    for s in ['1.2.3.4', '10.0.0-1.1,3-5', '1.2.3.-4', '9.8.7.250-', '10.0.0.0/30', '::1'] + \
+            ['.'.join(nmap_octet(rng) for _ in range(4)) for _ in range(2 * mult)]:
+        for e in all_edits(s):
             add_nmap(e)
     for _ in range(300 * mult):
         ss = tuple('%d.%d.' % (_oct(rng), _oct(rng)) + '.'.join(nmap_octet(rng) for _ in range(rng.choice([2, 2, 2, 2, 1])))
@@ -503,7 +525,20 @@ def impl(c):
         def cl():
             return plist('%d:%d/%d' % (n.version, n.value, n.prefixlen) for n in glob_to_cidrs(s))
 
-        return ' '.join(_try(f) for f in (t, r, g, cl))
+        def st():
+            o = IPGlob('*.*.*.*')
+            try:
+                o.glob = s
+            except Exception:
+                # a rejected assignment must leave the object as it was
+                if (o.first, o.last, str(o)) != (0, M32, '*.*.*.*'):
+                    return '!changed'
+                raise
+            if o.version != 4:
+                return 'v%d' % o.version
+            return '%d,%d,%s' % (o.first, o.last, hexs(str(o)))
+
+        return ' '.join(_try(f) for f in (t, r, g, cl, st))
     if k == 'r2g':
         _, ver, lo, hi = a
         return _try(lambda: plist(hexs(g) for g in iprange_to_globs(IPAddress(lo, ver), IPAddress(hi, ver))))
@@ -554,10 +589,10 @@ def oracle(c, got):
     if k == 'gconv':
         sp = spec_glob(a[1])
         parts = got.split(' ')
-        if len(parts) != 4:
+        if len(parts) != 5:
             return 'malformed output'
         if sp is None:
-            return None if parts == ['!'] * 4 else 'not a glob, yet a conversion succeeded: %s' % got
+            return None if parts == ['!'] * 5 else 'not a glob, yet a conversion succeeded: %s' % got
         lo, hi = sp
         pair = '%d,%d' % (lo, hi)
         if parts[0] != pair:
@@ -569,6 +604,9 @@ def oracle(c, got):
             return 'IPGlob gave %s, the glob denotes %s' % (parts[2], pair)
         if spec_glob(unhexs(g[2])) != sp:
             return 'str(IPGlob) = %r does not denote %s' % (unhexs(g[2]), pair)
+        g = parts[4].split(',')
+        if len(g) != 3 or ','.join(g[:2]) != pair or spec_glob(unhexs(g[2])) != sp:
+            return 'IPGlob.glob = %r gave %s, the glob denotes %s' % (a[1], parts[4], pair)
         exp = plist('4:%d/%d' % b for b in ref_cidrs(lo, hi))
         if parts[3] != exp:
             return 'glob_to_cidrs gave %s, expected %s' % (parts[3][:120], exp[:120])
@@ -695,7 +733,7 @@ def repro(c):
     if k == 'vglob':
         return 'valid_glob(%r)' % (a[1],)
     if k == 'gconv':
-        return 's = %r; glob_to_iptuple(s), glob_to_iprange(s), IPGlob(s), glob_to_cidrs(s)' % (a[1],)
+        return "s = %r; glob_to_iptuple(s), glob_to_iprange(s), IPGlob(s), glob_to_cidrs(s); g = IPGlob('*.*.*.*'); g.glob = s; g" % (a[1],)
     if k == 'r2g':
         return 'iprange_to_globs(IPAddress(%d, %d), IPAddress(%d, %d))' % (a[2], a[1], a[3], a[1])
     if k == 'c2g':
